@@ -1,6 +1,7 @@
 package main
 
 import (
+	"go/token"
 	"fmt"
 	"go/types"
 	"strings"
@@ -357,7 +358,7 @@ func (fr *Frame) applyContract(fc *FuncContract, site ssa.Instruction, obj *type
 	res := sig.Results()
 	var out []*Term
 	if fc.Pure {
-		if res.Len() == 1 && obj != nil {
+		if res.Len() >= 1 && obj != nil {
 			var recv *Term
 			rs := ""
 			a := args
@@ -365,7 +366,9 @@ func (fr *Frame) applyContract(fc *FuncContract, site ssa.Instruction, obj *type
 				recv, a = args[0], args[1:]
 				rs = vc.sortOf(tys[0])
 			}
-			out = []*Term{vc.pureApp(st, fc, obj, recv, rs, a)}
+			for i := 0; i < res.Len(); i++ {
+				out = append(out, vc.pureAppN(st, fc, obj, recv, rs, a, i))
+			}
 		} else {
 			for i := 0; i < res.Len(); i++ {
 				out = append(out, vc.fresh("r", vc.sortOf(res.At(i).Type())))
@@ -712,12 +715,11 @@ func (fr *Frame) builtin(site ssa.Instruction, b *ssa.Builtin, c *ssa.CallCommon
 		fr.mapDelete(st, c.Args[0].Type(), args[0], args[1])
 		return nil
 	case "close":
+		fr.checkGuardedChan(st, site, c.Args[0], "close")
 		cc := vc.comp(st, "chclosed", "(Array Int Bool)")
 		notClosed := mkAnd(mkNot(mkEq(args[0], leaf("0"))), mkNot(mkSelect(cc, args[0])))
 		pos := fr.fn.Prog.Fset.Position(site.Pos())
-		if fr.mode != nil && (fr.mode.Safety || fr.mode.Concurrent) {
-			vc.oblige("safety", "safety:close@"+shortFn(fr.fn), []string{"C16"}, st.guard, notClosed, pos, "close of nil or closed channel")
-		}
+		vc.oblige("safety", "safety:close@"+shortFn(fr.fn), []string{"C16"}, st.guard, notClosed, pos, "close of nil or closed channel")
 		vc.assume(st.guard, notClosed)
 		vc.setComp(st, "chclosed", "(Array Int Bool)", vc.name("cc", "(Array Int Bool)", mkStore(cc, args[0], tTrue)))
 		return nil
@@ -939,4 +941,110 @@ func (fr *Frame) runDefers(x *ssa.RunDefers, st *State) {
 // checkFrame / checkGuarded are hooks for frame and lock-discipline obligations.
 func (fr *Frame) checkFrame(st *State, x *ssa.Store, addr *Term) {}
 
-func (fr *Frame) checkGuarded(st *State, ins ssa.Instruction, addr ssa.Value) {}
+// checkGuarded emits the lock-discipline obligation for a load or store of a struct field annotated
+// "field[props] T.F guarded_by L": at the access the mutex T.L of the same object is held, or the object
+// was allocated by the function under verification (not yet shared).
+func (fr *Frame) checkGuarded(st *State, ins ssa.Instruction, addr ssa.Value) {
+	fr.checkGuardedOp(st, ins, addr, "")
+}
+
+// checkGuardedChan: closing or polling the channel stored in a guarded field is an access to shared
+// state as well (the channel value was loaded from the field: ch is that load).
+func (fr *Frame) checkGuardedChan(st *State, ins ssa.Instruction, ch ssa.Value, op string) {
+	if u, ok := ch.(*ssa.UnOp); ok && u.Op == token.MUL {
+		fr.checkGuardedOp(st, ins, u.X, op)
+	}
+}
+
+func (fr *Frame) checkGuardedOp(st *State, ins ssa.Instruction, addr ssa.Value, op string) {
+	vc := fr.vc
+	if vc.pure > 0 || (fr.mode != nil && fr.mode.Safety) {
+		return
+	}
+	fa, ok := addr.(*ssa.FieldAddr)
+	if !ok {
+		return
+	}
+	pt, ok := fa.X.Type().Underlying().(*types.Pointer)
+	if !ok {
+		return
+	}
+	named, ok := pt.Elem().(*types.Named)
+	if !ok {
+		return
+	}
+	stt, ok := named.Underlying().(*types.Struct)
+	if !ok || named.Obj().Pkg() == nil {
+		return
+	}
+	fname := stt.Field(fa.Field).Name()
+	ann := vc.eng.db.fields[named.Obj().Pkg().Name()+"."+named.Obj().Name()+"."+fname]
+	if ann == nil || ann.Kind != "guarded_by" {
+		return
+	}
+	if fr.mode != nil && fr.mode.Props != nil && len(ann.Props) > 0 {
+		want := false
+		for _, p := range ann.Props {
+			if fr.mode.Props[p] {
+				want = true
+			}
+		}
+		if !want {
+			return
+		}
+	}
+	li := -1
+	for i := 0; i < stt.NumFields(); i++ {
+		if stt.Field(i).Name() == ann.Lock {
+			li = i
+		}
+	}
+	if li < 0 {
+		vc.unsupportedf("field %s.%s guarded_by unknown lock field %s", named.Obj().Name(), fname, ann.Lock)
+		return
+	}
+	p := fr.val(fa.X)
+	lock := vc.sub(named, li, p)
+	held := vc.comp(st, "held", "(Array Int Bool)")
+	top := fr
+	for top.parent != nil {
+		top = top.parent
+	}
+	fresh := app(">", app("base", p), vc.wm(top.old))
+	n := 0
+	for _, b := range fr.fn.Blocks {
+		for _, i2 := range b.Instrs {
+			if i2 == ins {
+				goto found
+			}
+			var a2 ssa.Value
+			switch y := i2.(type) {
+			case *ssa.UnOp:
+				if y.Op == token.MUL {
+					a2 = y.X
+				}
+			case *ssa.Store:
+				a2 = y.Addr
+			}
+			if f2, ok := a2.(*ssa.FieldAddr); ok && f2.Field == fa.Field && types.Identical(f2.X.Type(), fa.X.Type()) {
+				n++
+			}
+		}
+	}
+found:
+	kind := "read"
+	if _, isStore := ins.(*ssa.Store); isStore {
+		kind = "write"
+	}
+	name := fmt.Sprintf("guard#%s.%s@%s#%d", named.Obj().Name(), fname, shortFn(fr.fn), n)
+	if op != "" {
+		kind = op
+		name = fmt.Sprintf("guard#%s.%s:%s@%s", named.Obj().Name(), fname, op, shortFn(fr.fn))
+	}
+	if fr.path != "" {
+		name += "<-" + fr.path
+	}
+	pos := fr.fn.Prog.Fset.Position(ins.Pos())
+	vc.oblige("guard", name, ann.Props, st.guard, mkOr(mkSelect(held, lock), fresh), pos,
+		fmt.Sprintf("%s of %s.%s without holding %s.%s", kind, named.Obj().Name(), fname, named.Obj().Name(), ann.Lock))
+}
